@@ -515,8 +515,32 @@ def run_impl(pool, slots, model):
 NUM_TOL = F(1, 10 ** 10)
 
 
-def compare_slot(m, ob):
-    """Tie: model answer line vs implementation observation.  Returns None if they agree, else a reason."""
+def printed_shape(t):
+    """A printed colour as (form, [numbers]) so that two spellings can be compared number by number."""
+    m = re.fullmatch(r"(rgba?|hsla?)\((.*)\)", t)
+    if not m:
+        return None
+    nums = [parse_number(x.strip()) for x in m.group(2).split(",")]
+    if any(n is None for n in nums):
+        return None
+    return m.group(1), nums
+
+
+def close_print(a, b):
+    """Same functional form, same units, every number within 1e-10 (last printed digit)."""
+    sa, sb = printed_shape(a), printed_shape(b)
+    if sa is None or sb is None or sa[0] != sb[0] or len(sa[1]) != len(sb[1]):
+        return False
+    return all(x[1] == y[1] and abs(x[0] - y[0]) <= NUM_TOL for x, y in zip(sa[1], sb[1]))
+
+
+def compare_slot(m, ob, notes=None):
+    """Tie: model answer line vs implementation observation.  Returns None if they agree, else a reason.
+    `notes` collects the names of the documented tolerances that were needed."""
+    notes = notes if notes is not None else []
+    risky = m.endswith(" risky")
+    if risky:
+        m = m[:-6]
     if m.startswith("err "):
         if ob[0] == "err" and ob[1] == m:
             return None
@@ -529,21 +553,46 @@ def compare_slot(m, ob):
         mc, me = unhex(p[7]), unhex(p[9])
         if comp == mc and exp == me:
             return None
+        if (comp == mc or close_print(comp, mc)) and (exp == me or close_print(exp, me)):
+            notes.append("last printed digit of a number inside rgba()/hsl() (decimal tie: exact value vs f64)")
+            return None
+        if risky:
+            # the exact value of some channel is within 1e-8 of a rounding threshold: grass (f64) and the
+            # model (exact) may round it differently; compare the channels with a tolerance of one unit
+            a, b = parse_printed_color(comp), parse_printed_color(mc)
+            if a and b and all(abs(x - y) <= 1 for x, y in zip(a[:3], b[:3])) and abs(a[3] - b[3]) <= NUM_TOL:
+                notes.append("channel at a rounding threshold (exact X.5): compared within one unit")
+                return None
         return f"printed colour differs: model {mc!r} / {me!r} vs impl {comp!r} / {exp!r}"
     if p[1] == "num":
         q = F(p[2])
         unit = "" if p[3] == "-" else p[3]
         for t in (comp, exp):
             pn = parse_number(t)
-            if pn is None or pn[1] != unit or abs(pn[0] - q) > NUM_TOL:
+            if pn is None or pn[1] != unit:
+                return f"number differs: model {float(q)!r}{unit} ({p[2]}) vs impl {t!r}"
+            if abs(pn[0] - q) > NUM_TOL:
+                if risky:
+                    notes.append("accessor of a colour at a rounding threshold: not compared")
+                    return None
                 return f"number differs: model {float(q)!r}{unit} ({p[2]}) vs impl {t!r}"
         return None
     if p[1] == "bool":
         want = "true" if p[2] == "1" else "false"
-        return None if comp == want and exp == want else f"bool differs: model {want} vs impl {comp!r}"
+        if comp == want and exp == want:
+            return None
+        if risky and comp == exp:
+            notes.append("comparison involving a colour at a rounding threshold: not compared")
+            return None
+        return f"bool differs: model {want} vs impl {comp!r}"
     if p[1] == "str":
         want = unhex(p[2])
-        return None if comp == want and exp == want else f"string differs: model {want!r} vs impl {comp!r}"
+        if comp == want and exp == want:
+            return None
+        if risky and comp == exp:
+            notes.append("string of a colour at a rounding threshold: not compared")
+            return None
+        return f"string differs: model {want!r} vs impl {comp!r}"
     return f"unreadable model answer {m!r}"
 
 
@@ -597,7 +646,12 @@ def evaluate(ck, cases, pool, direct_only=False):
         # (b) tie
         if not direct_only:
             for k, (m, ob) in enumerate(zip(mods, obs)):
-                why = compare_slot(m, ob)
+                notes = []
+                why = compare_slot(m, ob, notes)
+                for n in notes:
+                    ck.hist("tolerance:" + n)
+                if m.endswith(" risky"):
+                    ck.hist("model:risky (some exact channel within 1e-8 of X.5)")
                 if why:
                     ck.cov["model_disagreements"] += 1
                     if len(ck.disagreements) < 12:
